@@ -16,7 +16,7 @@ RULE = (
     "-180..180 longitudes; transposed connectivity with face_dimension; 1..n Exodus blocks, coord vs coordx/y/z; "
     "ESMF start_index attribute and decoded NaN padding; MPAS zero / repeated-index padding, optional tables, sphere "
     "radius) x meshes (voronoi, delaunay, merged, polyhedra, cubed sphere, lat-lon patches, partial, snapped onto "
-    "poles / antimeridian) x {in-memory dataset, NetCDF file round trip}. Oracle: per-face cyclic equality of corner "
+    "poles / antimeridian) x {in-memory dataset (opened twice from the same object), NetCDF file round trip}; Exodus size groups spread over up to 12+ element blocks; MPAS int32/int64 index storage. Oracle: per-face cyclic equality of corner "
     "positions with the model, standard form, coordinate ranges, supplied tables / centres / areas keep their meaning. "
     "File formats written by a third-party encoder are compared with an independent decode of the file. Non-trivial = "
     "mixed face sizes, or a pole/antimeridian placement, or any dialect axis off its sample-file value."
@@ -73,6 +73,7 @@ def open_source(case, m, rng):
                 g = U.open_grid(src, latlon=info["latlon"])
             else:
                 g = U.Grid.from_face_vertices(src, latlon=info["latlon"])
+            info["reopen"] = lambda: U.Grid.from_face_vertices(src, latlon=info["latlon"])
             return g, info
         if kind == "topology":
             kw, info = dialects.topology_args(m, rng)
@@ -81,6 +82,7 @@ def open_source(case, m, rng):
                 g = U.open_grid(kw)
             else:
                 g = U.Grid.from_topology(**kw)
+            info["reopen"] = lambda: U.Grid.from_topology(**kw)
             return g, info
         if kind == "ugrid":
             ds, info = dialects.ugrid_dataset(m, rng)
@@ -113,6 +115,7 @@ def open_source(case, m, rng):
                 g = U.open_grid(path, use_dual=(kind == "mpas_dual"))
                 return g, info
         g = U.open_grid(ds, use_dual=(kind == "mpas_dual"))
+        info["reopen"] = lambda: U.open_grid(ds, use_dual=(kind == "mpas_dual"))
         return g, info
     finally:
         if path:
@@ -127,10 +130,10 @@ def open_source(case, m, rng):
 
 SIG_KEYS = {
     "UGRID": ["start_index", "dtype", "padded", "transposed", "fill_declared", "lon", "via_file"],
-    "MPAS": ["padding", "dual", "optional_tables", "via_file"],
+    "MPAS": ["padding", "dual", "optional_tables", "via_file", "index_dtype"],
     "Scrip": ["padded", "lon", "via_file"],
     "Exodus": ["coord", "via_file"],
-    "ESMF": ["start_index", "decoded", "padded", "via_file"],
+    "ESMF": ["start_index", "decoded", "padded", "via_file", "index_dtype"],
     "GEOS-CS": ["lon", "via_file"],
     "ICON": ["closed", "via_file"],
     "GeoJSON": ["padded"],
@@ -152,6 +155,7 @@ def sig_of(info, extra=None):
         s["fill_kind"] = "nan" if d["fill"] == "nan" else ("intmin" if d["fill"] == "intmin" else "int")
     if fmt == "Exodus" and "n_blocks" in d:
         s["multi_block"] = d["n_blocks"] > 1
+        s["ten_or_more_blocks"] = d["n_blocks"] >= 10
     if fmt in ("GeoJSON", "Shapefile") and "n_multipolygons" in d:
         s["has_multipolygon"] = d["n_multipolygons"] > 0
     if extra:
@@ -240,6 +244,19 @@ def run_case(ctx, case):
         ctx.check("no_exception", False, dict(sig, stage="observe", exc=core.exc_sig(e)), {"exc": repr(e)[:300]})
     if ok:
         supplied_checks(ctx, g, info, sig)
+    # the same in-memory source object describes the same grid when it is opened a second time
+    if ok and info.get("reopen") is not None:
+        try:
+            g2 = info["reopen"]()
+            ok2, why2 = ux.faces_match(g2, exp, allow_reflection=info["reflect"])
+            ctx.check("faces_equal", ok2, dict(sig, why=(why2 or {}).get("why", ""), opened="second_time_from_same_object"), {"why": why2, "mesh": case["mesh"]})
+            ok1, why1 = ux.faces_match(g, exp, allow_reflection=info["reflect"])
+            ctx.check("faces_equal", ok1, dict(sig, why=(why1 or {}).get("why", ""), opened="first_grid_after_second_open"), {"why": why1, "mesh": case["mesh"]})
+            if ok2:
+                supplied_checks(ctx, g2, info, dict(sig, opened="second_time_from_same_object"))
+            ctx.observe("opened_twice_from_same_object")
+        except Exception as e:
+            ctx.check("no_exception", False, dict(sig, stage="second_open", exc=core.exc_sig(e)), {"exc": repr(e)[:300], "mesh": case["mesh"]})
     _bookkeeping(ctx, case, info)
 
 
